@@ -56,6 +56,10 @@ class XMLDocParser:
         documenting_index = self.determine_documenting_index(
             cpp_class, cpp_method, method_args_names, member_defs)
 
+        # More overloads were asked for than are documented: no docs for the extra ones.
+        if documenting_index >= len(member_defs):
+            return ""
+
         # Extract the docs for the function that matches cpp_class.cpp_method(*method_args_names).
         return self.get_formatted_docstring(member_defs[documenting_index],
                                             ignored_params) if member_defs else ""
